@@ -44,6 +44,7 @@ type Case struct {
 	Reg       string   `json:"reg"`
 	Entry     string   `json:"entry"`
 	BadRef    bool     `json:"bad_ref"`
+	Root      string   `json:"root,omitempty"` // root path handed to NewSchemaValidator
 }
 
 var optionNames = []string{"EnableObjectArrayTypeCheck", "EnableArrayMustHaveItemsCheck", "SwaggerSchema", "WithRecycleValidators", "WithSkipSchemataResult"}
@@ -96,6 +97,10 @@ func genCase(t *rapid.T) Case {
 	}
 	c.Reg = rapid.SampledFrom([]string{"custom", "custom", "nil", "default"}).Draw(t, "reg")
 	c.Entry = rapid.SampledFrom([]string{"against", "validator"}).Draw(t, "entry")
+	if c.Entry == "validator" {
+		// root paths that look like the positions the Swagger structural checks treat specially
+		c.Root = rapid.SampledFrom([]string{"", "", "root", "examples", "example", "default", "properties", "a.default", "x.examples", "items", "a.properties"}).Draw(t, "rootpath")
+	}
 	return c
 }
 
@@ -254,7 +259,7 @@ func check(c Case) (out ev.Outcome) {
 			_ = validate.AgainstSchema(sch, data, rg, options(c.Options)...)
 			return
 		}
-		res := validate.NewSchemaValidator(sch, nil, "", rg, options(c.Options)...).Validate(data)
+		res := validate.NewSchemaValidator(sch, nil, c.Root, rg, options(c.Options)...).Validate(data)
 		nilResult = res == nil
 	})
 	if msg == "" {
